@@ -404,6 +404,7 @@ class Explorer(object):
         """bound: maximal number of preemptions (None = all interleavings). Returns self.stats()."""
         frontier = {0: [((), None)]}
         level = 0
+        cut = False           # some alternative was left out because of the bound
         while True:
             pending = [c for c in frontier if frontier[c]]
             if not pending: break
@@ -424,13 +425,16 @@ class Explorer(object):
                     if len(en) < 2: continue
                     prev = x.trace[i - 1][0] if i > 0 else None
                     c = costs[i] + (1 if prev in en else 0)       # alternatives 1.. all leave a still-enabled thread
-                    if bound is not None and c > bound: continue
+                    if bound is not None and c > bound:
+                        cut = True; continue
                     hsh = x.prefix_hashes[i - 1] if i > 0 else 0
                     base = tuple(x.choices[:i])
                     for alt in range(1, len(en)):
                         frontier.setdefault(c, []).append((base + (alt,), (i, hsh, tuple(en))))
             self.bound_completed = level
-        if bound is None: self.bound_completed = 'all'
+        # the frontier is empty: every schedule with at most `bound` preemptions has been executed; when
+        # nothing was cut off these are ALL interleavings of the program tuple
+        self.bound_completed = 'all' if (bound is None or not cut) else bound
         return self.stats()
     def account(self, x):
         self.executions += 1
